@@ -17,15 +17,16 @@ def menu(labels, full=False):
     names = sorted(l for l in labels if l is not None)
     D = [{"k": "pos", "de": 1.0},
          {"k": "comb", "a": 1.0, "b": 1.0, "de": 1.0},
-         {"k": "comb", "a": 3.0, "b": 2.0, "de": 0.5}]
+         {"k": "comb", "a": 3.0, "b": 2.0, "de": 0.7}]  # 0.7, 1.7: not exactly representable (rounding-sensitive)
     if full:
         D += [{"k": "pos", "de": 0.35}, {"k": "pos", "de": 2.5},
               {"k": "abs", "de": 1.0},
               {"k": "comb", "a": 0.0, "b": 1.0, "de": 1.0},
               {"k": "comb", "a": 1.0, "b": 0.0, "de": 2.0}]
     if not unl and names:
-        D.append({"k": "comb", "a": 1.0, "b": 1.0, "de": 2.0, "cat": {"k": "ord", "labels": names}})
+        D.append({"k": "comb", "a": 1.0, "b": 1.0, "de": 1.7, "cat": {"k": "ord", "labels": names}})
         if full:
+            D.append({"k": "comb", "a": 3.0, "b": 2.0, "de": 0.5})
             pre = PRE_XY if len(names) <= 2 else PRE_XYZ
             if set(names) <= set(pre["labels"]):
                 D.append({"k": "comb", "a": 2.0, "b": 1.0, "de": 0.5, "cat": dict(pre, de=0.5)})
@@ -121,8 +122,12 @@ def universes(tier, purpose="opt"):
     """List of universe descriptors (kwargs of universe.iter_G) + list of explicit family specs."""
     from ..universe import fam_staircase, fam_nested, fam_interleaved, fam_identical
     XY = ["x", "y"]
+    # short and long segments mixed: a short far unit followed by a long unit that is within reach again
+    LONG = [[0, 1], [2, 3], [2, 6], [0, 6], [5, 6], [1, 2]]
     if tier == "quick":
         U = [dict(n=2, k=2, T=3, labels=XY),
+             dict(n=2, k=2, T=6, labels=["x"], segs=LONG),
+             dict(n=3, k=2, T=6, labels=["x"], segs=LONG[:4], sym=True),
              dict(n=2, k=2, T=3, labels=[None]),
              dict(n=2, k=2, T=2, labels=["x", None]),
              dict(n=3, k=2, T=2, labels=XY, sym=True),
@@ -131,6 +136,9 @@ def universes(tier, purpose="opt"):
              dict(n=5, k=1, T=2, labels=["x"])]
     else:
         U = [dict(n=2, k=2, T=4, labels=XY),
+             dict(n=2, k=3, T=6, labels=["x"], segs=LONG),
+             dict(n=3, k=2, T=6, labels=["x"], segs=LONG),
+             dict(n=2, k=2, T=6, labels=XY, segs=LONG),
              dict(n=2, k=3, T=3, labels=["x"]),
              dict(n=2, k=2, T=3, labels=["x", "y", None], max_labels=2),
              dict(n=3, k=2, T=2, labels=XY),
@@ -160,7 +168,7 @@ def make_shards(tier, purpose, nshards_per_universe=None, extra=None):
     tasks = []
     from ..universe import size_G
     for u in U:
-        sz = size_G(u["n"], u["k"], u["T"], u["labels"])
+        sz = size_G(u["n"], u["k"], u["T"], u["labels"], segs=u.get("segs"))
         ns = nshards_per_universe or max(1, min(48, sz // 150))
         for s in range(ns):
             t = {"universe": u, "shard": s, "nshards": ns}
@@ -194,7 +202,8 @@ def iter_task_specs(task):
         u = task["universe"]
         dup_every = task.get("dup_every", 0)
         for idx, spec in iter_G(u["n"], u["k"], u["T"], u["labels"], shard=task["shard"], nshards=task["nshards"],
-                                sym=u.get("sym", False), max_labels=u.get("max_labels")):
+                                sym=u.get("sym", False), max_labels=u.get("max_labels"),
+                                segs=[tuple(x) for x in u["segs"]] if u.get("segs") else None):
             yield spec
             if dup_every and idx % dup_every == 0:
                 d = dup_variant(spec, idx // dup_every)
